@@ -388,7 +388,7 @@ for _L, _A, _tier, _to in ((3, 3, "quick", 900), (3, 4, "quick", 1200), (3, 5, "
 # ------------------------------------------------------------------------------- C02: dummy second table of single-table blocks
 for _nm, _tier in ((2, "quick"), (37, "quick"), (150, "thorough")):
     add("dummy_table_nm%d" % _nm, "h_gpc.c", "h_dummy_table", {"C02": _tier}, defines=["-DNM=%d" % _nm],
-        cbmc=["--unwind", "262"], backend="kissat", timeout=900, mem_gb=8, extra_src=["crctab.c"],
+        cbmc=["--unwind", "262"], backend="kissat", timeout=1800, mem_gb=8, extra_src=["crctab.c"],
         remove_bodies=["generate_initial_trees", "assign_codes"], shrink="encoder_bucket",
         unwind_is_violation=True,   # the bound (262) exceeds the table length (259): a loop that needs more writes outside the table
         functions=["src/encode.c:generate_prefix_code (sentinel padding, table renumbering, dummy second table)"],
@@ -412,19 +412,19 @@ def tx_ob(name, tier, part, defs, to, bounds, wit, loops45):
         backend="kissat", timeout=to, mem_gb=6, extra_src=["crctab.c"], shrink="encoder_bucket",
         functions=["src/encode.c:transmit (PUTBIT/SEND/DUMP macros)"], witnesses=["inspected"] + wit,
         bounds=bounds, assumptions=TX_ASM, outside=TX_OUT)
-tx_ob("transmit_map_sel", "quick", 1, ["-DBMASK=0x8101u"], 900,
+tx_ob("transmit_map_sel", "quick", 1, ["-DBMASK=0x8101u"], 1800,
       "symbol map: buckets 0, 7 and 15 arbitrary (others empty); table count 2..6 and 1..3 selectors symbolic; CRC and primary index fields symbolic; table lengths concrete",
       ["all_selectors", "six_tables", "all_buckets_used", "only_last_bucket"], 3)
 tx_ob("transmit_map_all", "thorough", 1, [], 3000,
       "symbol map: all 16 buckets arbitrary; table count 2..6 and 1..3 selectors symbolic; CRC and primary index fields symbolic; table lengths concrete",
       ["all_selectors", "six_tables", "all_buckets_used", "only_last_bucket"], 3)
-tx_ob("transmit_lengths_a3", "quick", 2, ["-DAS=3", "-DSEL0=1"], 1200,
+tx_ob("transmit_lengths_a3", "quick", 2, ["-DAS=3", "-DSEL0=1"], 1800,
       "two tables over a 3-symbol alphabet with symbolic code lengths 1..20 (adjacent lengths differ by at most 3), tree_pad 0..3 symbolic, tables sent in swapped order",
       ["pad3_on_length3", "pad3_on_length4", "pad3_on_length20", "both_extremes"], 5)
 tx_ob("transmit_lengths_a4", "thorough", 2, ["-DAS=4", "-DSEL0=0"], 3000,
       "two tables over a 4-symbol alphabet with symbolic code lengths 1..20 (adjacent lengths differ by at most 3), tree_pad 0..3 symbolic",
       ["pad3_on_length3", "pad3_on_length4", "pad3_on_length20", "both_extremes"], 5)
-tx_ob("transmit_codes", "quick", 3, [], 900,
+tx_ob("transmit_codes", "quick", 3, [], 1800,
       "the group's table: symbolic lengths 1..20 (adjacent lengths differ by at most 3) and symbolic code bits; the block's 2 MTF symbols before end-of-block symbolic",
       ["longest_codes", "shortest_code"], 5)
 
@@ -448,9 +448,9 @@ for _e, _w in (("emit", ["emit_enabled", "emit_needs_another_buffer", "emit_on_r
 import copy as _copy
 _UB_BASES = ["symbol_step_eob", "symbol_step_byte", "symbol_step_runa", "emit_step", "delta_window", "delta_start", "tree_symbol_L5_W2_A5", "emit_crc_n4", "parse_nw3_blk1", "parse_nw3_ecrc2", "parse_nw3_stream1",
              "collect_len1_m9_all", "collect_len2_m6_rs3", "collect_inline_L5_s0f", "collect_inline_L5_s07", "xread_fill", "xwrite_short",
-             "reorder_checks", "parse_finish", "heap_ops", "rg_transmit", "rg_collect", "rg_reorder", "dfa_big", "sniff"]
+             "reorder_checks", "parse_finish", "heap_ops", "rg_transmit", "rg_collect", "rg_reorder", "dfa_big", "sniff", "transmit_codes", "dummy_table_nm2"]
 _UB_QUICK = ["symbol_step_eob", "symbol_step_byte", "symbol_step_runa", "delta_window", "delta_start", "tree_symbol_L5_W2_A5", "parse_nw3_blk1", "collect_len1_m9_all", "collect_inline_L5_s07", "xread_fill", "xwrite_short",
-             "reorder_checks", "parse_finish", "heap_ops", "rg_transmit", "rg_collect", "rg_reorder", "dfa_big", "sniff"]
+             "reorder_checks", "parse_finish", "heap_ops", "rg_transmit", "rg_collect", "rg_reorder", "dfa_big", "sniff", "dummy_table_nm2"]
 for _o in list(OBLIGATIONS):
     if _o.name in _UB_BASES:
         _u = _copy.copy(_o)
@@ -459,7 +459,7 @@ for _o in list(OBLIGATIONS):
         _u.props = {"C08": "quick" if _o.name in _UB_QUICK else "thorough"}
         if _o.name.startswith("symbol_step"):
             _u.props["C07"] = "quick"      # "never crashes" on overrunning blocks
-        _u.timeout = 900
+        _u.timeout = 2400 if _o.name in ("transmit_codes", "dummy_table_nm2") else 900
         _u.bounds = _o.bounds + "; run with CBMC's standard checks (array bounds, pointer validity incl. use after free, signed overflow, undefined shifts, division by zero) in addition to the functional assertions"
         _u.outside = list(_o.outside) + ["pointer-overflow (forming an out-of-bounds pointer without dereferencing it) is not checked", "decisions on uninitialised memory are visible only as functional failures of the twin obligation"]
         OBLIGATIONS.append(_u)
